@@ -5,7 +5,7 @@ import ast
 
 from ..term import AnalysisError
 from ..loader import Repo, norm_stmt
-from ..effects import (Effects, FRESH, IMMUT, PARAM, MODULE, CLASS, SELF, SELF_INIT, UNKNOWN, FRESHPART,
+from ..effects import (constructor_helpers, Effects, FRESH, IMMUT, PARAM, MODULE, CLASS, SELF, SELF_INIT, UNKNOWN, FRESHPART,
                        INPLACE_DUNDERS, NONDET_MODULES, ALLOWED_IMPORT_ROOTS, NONDET_CALLS, MEMO_DECOS)
 
 # reviewed sites: (qualified function or module, key) -> reason
@@ -97,6 +97,8 @@ def analyse(repo):
                     continue
         findings.append(("R1", q, s.key(), s.where,
                          f"{s.kind} to `{s.target_src}`: the object written is {s.origin} (not allocated in this activation)"))
+    ctor_helpers = constructor_helpers(E)
+    stats["ctor_helpers"] = sorted(ctor_helpers)
     # parameter mutation: violation for public functions, and for helpers unless every call site passes a fresh object
     changed = True
     mut = {q: set(fe.mutated_params) for q, fe in E.funcs.items() if fe.mutated_params}
@@ -122,6 +124,8 @@ def analyse(repo):
                 o = caller.origin_of_expr(arg)
                 if o in (FRESH, "self-field-in-init"):
                     continue
+                if callee.qualname in ctor_helpers and pn == fe.params[0]:
+                    continue            # the object under construction, handed to its own constructor helper
                 if o in (PARAM, SELF):
                     ps = E._params_in(arg, caller)
                     cur = mut.setdefault(caller.f.qualname, set())
@@ -162,6 +166,12 @@ def analyse(repo):
                 dn = ast.unparse(d).split("(")[0]
                 if dn in MEMO_DECOS or dn.split(".")[-1] in MEMO_DECOS:
                     if f.qualname not in REVIEWED_MEMO:
+                        if dn.split(".")[-1] in ("lru_cache", "cache") and (f.cls is None or f.kind == "staticmethod"):
+                            # keyed by the complete argument tuple of a function that (by R1, which treats its results as
+                            # shared objects) writes nothing and whose results nobody writes: a transparent memo
+                            memo_ok.append((f.qualname, f"memoising decorator {dn}", f.where,
+                                            "keyed by all arguments; results are treated as shared objects by R1"))
+                            continue
                         findings.append(("R2", f.qualname, f"memoising decorator {dn}", f.where,
                                          "cache keyed on arguments/instance: history-dependence unless reviewed"))
         # module level: stores through attributes/subscripts, bare calls
@@ -184,6 +194,9 @@ def analyse(repo):
                 mods = [n.module]
             for mm in mods:
                 root = mm.split(".")[0]
+                from ..effects import ALLOWED_FROM
+                if isinstance(n, ast.ImportFrom) and mm in ALLOWED_FROM and {a.name for a in n.names} <= ALLOWED_FROM[mm]:
+                    continue
                 if root in NONDET_MODULES or root not in ALLOWED_IMPORT_ROOTS:
                     findings.append(("R3", m.name, f"imports {mm}", f"{m.relpath}:{n.lineno}",
                                      "module outside the closed list of deterministic, effect-free dependencies"))
@@ -216,7 +229,8 @@ def analyse(repo):
         t = s.node
         for tt in ast.walk(t):
             if isinstance(tt, ast.Attribute) and isinstance(tt.ctx, (ast.Store, ast.Del)) and tt.attr in FIELD_ATTRS:
-                if s.func.node.name != "__init__" or not (isinstance(tt.value, ast.Name) and tt.value.id == s.func.params[0]):
+                if (s.func.node.name != "__init__" and s.func.qualname not in ctor_helpers) \
+                        or not (isinstance(tt.value, ast.Name) and tt.value.id == s.func.params[0]):
                     findings.append(("R4", s.func.qualname, f"store to field attribute .{tt.attr} outside its constructor", s.where, ""))
     for m in repo.modules.values():
         for c in m.classes.values():
@@ -265,7 +279,8 @@ def run(chk, repo, tier):
         seen.add((r, q, k))
         chk.ob(f"C20.{r}", q, k, False, d, w)
     for q, k, w, why in stats.pop("memo_ok"):
-        chk.ob("C20.R1", q, k, True, "transparent memo table (only this function reads and writes it): " + why, w)
+        chk.ob("C20.R2" if k.startswith("memoising decorator") else "C20.R1", q, k, True,
+               "transparent memo (only this function reads and writes it): " + why, w)
     for s in E.sites:
         if site_ok(s):
             chk.ob("C20.R1", s.func.qualname, s.key() + f" @{norm_stmt(s.node)[:60]}", True, "", s.where,
